@@ -309,17 +309,24 @@ func c16Machine(t *rapid.T, kind string) {
 			e := rapid.OneOf(rapid.IntRange(-3, hi), rapid.SampledFrom([]int{0, 999999, hi})).Draw(t, "e")
 			trace = append(trace, fmt.Sprintf("%d.Get(%d,%d)", idx(suts, s), b, e))
 			want := s.model.rangeOf(b, e)
-			if rapid.Bool().Draw(t, "iterate") {
-				var got [][]byte
-				err := s.st.IterateMessages(b, e, func(m []byte) error { got = append(got, append([]byte(nil), m...)); return nil })
-				if err != nil || !sameMsgs(got, want) {
-					fail("range-differs", "IterateMessages(%d,%d) = %s err %v, model %s after %v", b, e, showMsgs(got), err, showMsgs(want), trace)
+			// (a store that panics on a range - the abstract store never does - is reported as such)
+			var got [][]byte
+			var err error
+			iterate := rapid.Bool().Draw(t, "iterate")
+			pan := func() (p interface{}) {
+				defer func() { p = recover() }()
+				if iterate {
+					err = s.st.IterateMessages(b, e, func(m []byte) error { got = append(got, append([]byte(nil), m...)); return nil })
+				} else {
+					got, err = s.st.GetMessages(b, e)
 				}
-			} else {
-				got, err := s.st.GetMessages(b, e)
-				if err != nil || !sameMsgs(got, want) {
-					fail("range-differs", "GetMessages(%d,%d) = %s err %v, model %s after %v", b, e, showMsgs(got), err, showMsgs(want), trace)
-				}
+				return nil
+			}()
+			if pan != nil {
+				fail("range-panics", "retrieving [%d,%d] (iterate %v) panicked: %v after %v", b, e, iterate, pan, trace)
+			}
+			if err != nil || !sameMsgs(got, want) {
+				fail("range-differs", "retrieving [%d,%d] (iterate %v) = %s err %v, model %s after %v", b, e, iterate, showMsgs(got), err, showMsgs(want), trace)
 			}
 			if feat["reopen-after-save"] {
 				feat["read-after-reopen"] = true
